@@ -123,6 +123,9 @@ class Ctx:
     def drive(self, driver, cases, hashseeds=(0,), procs=NPROC, opts=None, timeout=5400, env=None):
         """cases: list of json-able case dicts.  Spawns `procs` workers
         (python harness/worker.py driver in out opts) and returns the path of the merged trace."""
+        ids = [c.get("id") for c in cases]
+        if len(set(ids)) != len(ids):      # verdicts are keyed by id: a duplicate would hide one of the two
+            raise MachineryError(f"driver {driver}: duplicate case ids")
         d = self.work / f"drive_{driver}_{len(list(self.work.glob('drive_*')))}"
         d.mkdir(parents=True)
         procs = max(1, min(procs, len(cases)))
